@@ -9,6 +9,8 @@ import (
 
 // HostileFragments are spliced into corpus records by the mutators.
 var HostileFragments = []string{
+	// rule keys the kernel hex-encodes because several keys are joined by 0x01: empty components at every place
+	"key=0161", "key=61010162", "key=01", "key=6101", "key=010161", "key=0101", "key=610101", "key=(null)", `key=""`,
 	`"`, `'`, `msg='`, `msg='op=x`, `key="`, `a0="unterminated`, ` a0=' `, `=`, `==`, `= =`,
 	"argc=4294967295", "argc=-1", "argc=3", "argc=99999999999999999999", "argc=0x10", "a0=A", "a0=ABC", "a1=zz", "a2=",
 	"exit=-9223372036854775808", "exit=9223372036854775807", "exit=-1", "exit=-0", "exit=--1", "exit=-99999999999999999999",
